@@ -135,7 +135,11 @@ impl Static {
             for s in &f.scenarios {
                 add(s, None, f);
             }
-            for r in &f.rules {
+            for (ri, r) in f.rules.iter().enumerate() {
+                // scenarios the run's filter rejects are never handed to the runner (the rule stays)
+                if plan.filtered_rules.contains(&(fi, ri)) {
+                    continue;
+                }
                 for s in &r.scenarios {
                     add(s, Some(r), f);
                 }
@@ -450,7 +454,11 @@ pub struct Analysis<'a> {
     pub attempts: Vec<Attempt>,
     pub faults: Faults<'a>,
     /// Attempts per scenario name, in stream order.
-    pub by_scenario: BTreeMap<String, Vec<usize>>,
+    /// Attempt indices per scenario: (name, feature pointer id) - the same feature may be handed to
+    /// the runner twice, and then two scenarios carry one name.
+    pub by_scenario: BTreeMap<(String, usize), Vec<usize>>,
+    /// Scenario names that occur under more than one feature instance ("twins").
+    pub twin_names: BTreeSet<String>,
     /// Index in `h.events` of the Finished of the first finally failed attempt (fail-fast trip point).
     pub first_final_failure: Option<usize>,
 }
@@ -459,9 +467,9 @@ impl<'a> Analysis<'a> {
     pub fn new(plan: &'a Plan, h: &'a History) -> Self {
         let st = Static::new(plan);
         let attempts = attempts(&h.events);
-        let mut by_scenario: BTreeMap<String, Vec<usize>> = BTreeMap::new();
+        let mut by_scenario: BTreeMap<(String, usize), Vec<usize>> = BTreeMap::new();
         for (i, a) in attempts.iter().enumerate() {
-            by_scenario.entry(a.scenario.clone()).or_default().push(i);
+            by_scenario.entry((a.scenario.clone(), a.key.0)).or_default().push(i);
         }
         let mut first_final_failure = None;
         for a in &attempts {
@@ -471,7 +479,14 @@ impl<'a> Analysis<'a> {
                 }
             }
         }
-        Self { plan, h, st, attempts, faults: Faults::new(&h.cb), by_scenario, first_final_failure }
+        let mut seen_names: BTreeSet<&String> = BTreeSet::new();
+        let mut twin_names = BTreeSet::new();
+        for (name, _) in by_scenario.keys() {
+            if !seen_names.insert(name) {
+                twin_names.insert(name.clone());
+            }
+        }
+        Self { plan, h, st, attempts, faults: Faults::new(&h.cb), by_scenario, twin_names, first_final_failure }
     }
 
     pub fn complete(&self) -> bool {
